@@ -349,6 +349,27 @@ def run(ctx):
         ctx.compare("cooler makebins", case, got, [list(r) for r in mo])
         if got is None or not oracle_binnify(sizes, b, [tuple(r) for r in got]):
             ctx.fail(case, {"makebins": got, "exit": res.exit_code}, None)
+        # the same command writing to a FILE (--out / -o), with and without --header, into a fresh path and into a path that
+        # already holds an older table (regenerated at another width): the file is exactly the table asked for now
+        if k % 2 == 0 or thorough:
+            for hdr in (False, True):
+                opath = gdir / f"out{k}_{int(hdr)}.bed"
+                for prior in (None, max(1, b // 2), b + 3):
+                    if prior is not None:
+                        runner.invoke(cli, ["makebins", str(cpath), str(prior), "-o", str(opath)])
+                    res_o = runner.invoke(cli, ["makebins", str(cpath), str(b), ["--out", "-o"][k % 4 // 2], str(opath)] + (["--header"] if hdr else []))
+                    case_o = {"fn": "makebins --out", "sizes": sizes, "binsize": b, "header": hdr, "prior_width_in_same_file": prior}
+                    ctx.case(case_o, kind="glue:makebins-out")
+                    lines = opath.read_text().splitlines() if (res_o.exit_code == 0 and opath.exists()) else None
+                    if lines is not None and hdr:
+                        if lines[:1] != ["chrom\tstart\tend"]:
+                            ctx.fail(case_o, {"first_line": lines[:1]}, None)
+                        lines = lines[1:]
+                    got_o = None if lines is None else [[names.index(r[0]) if r[0] in names else -1, int(r[1]), int(r[2])] for r in (ln.split("\t") for ln in lines)]
+                    if got_o != [list(r) for r in mo]:
+                        ctx.fail(case_o, {"rows_in_file": None if got_o is None else len(got_o), "expected_rows": len(mo), "first_rows": None if got_o is None else got_o[:6], "exit": res_o.exit_code}, None)
+                if opath.exists():
+                    os.remove(opath)
         cs, bins = parse_bins(f"{cpath}:{b}")
         got2 = [[names.index(str(c)), int(s_), int(e)] for c, s_, e in zip(bins["chrom"].astype(str), bins["start"], bins["end"])]
         ctx.compare("parse_bins", case, got2, [list(r) for r in mo])
